@@ -13,6 +13,9 @@ def units(tier):
                        ("pfm_4f", "writePFM<vec4f>")]:
             ents.append(Entry("vp_main_%s_%s" % (fmt, sh), unwind=uw, timeout=300 if q else 1500, desc=d + "; reads only the w*h pixels given",
                               bounds="image %s, all pixel values, unwind %d" % (sh, uw)))
+    for n in ["ppm_seq_21_12", "ppm_seq_11_22", "pgm_seq_21_12", "pgm_seq_22_11", "pfm_f_seq_21_12", "pfm_3f_seq_21_11", "pfm_3fa_seq_21_12", "pfm_4f_seq_21_11"]:
+        ents.append(Entry("vp_main_" + n, unwind=40, timeout=300 if q else 1500, desc="two images in a row by the same thread in the same format (sizes WH then WH as named): the second file depends only on its own call's arguments",
+                          bounds="two calls, sizes as named, all pixel values"))
     ents.append(Entry("vp_main_open_fails", unwind=4, desc="fopen failure throws runtime_error"))
     return [CbmcUnit("image", "harness/C20_image.cpp", ents, heap_max=160, elem_unwind=40, mem_unwind=150, native_defines=["VP_NATIVE_BUILD"],
                      assumptions=["fopen/fprintf/fwrite/fclose replaced by capturing stubs (header arguments and payload bytes)", "image sizes: every (w,h) in 1..%d" % (2 if q else 3),
